@@ -100,7 +100,9 @@ class Schema:
         if t[0] == "p":
             return "p%d" % PIDX[t[1]]
         if t[0] == "e":
-            return "p%d" % PIDX[t[2]]
+            # an enum is its base integer on the wire; the generator's `byte` fast paths are keyed on the type NAME `byte`,
+            # so an enum over byte is written element by element like uint8
+            return "p%d" % PIDX["uint8" if t[2] == "byte" else t[2]]
         if t[0] == "r":
             return "r%d" % t[1].id
         if t[0] == "a":
